@@ -112,6 +112,17 @@ def c_group_text():
     return _msg_sig(m) + (tuple(c.name for c in pid.children), pid.pid_5[0].xpn_1.to_er7())
 
 
+_FETCHED_DEFAULTS = hl7apy.get_default_encoding_chars()      # fetched once, when nothing has touched the defaults yet
+
+
+def c_segment_library_constant():
+    # the explicit argument is the library's own constant / a dictionary fetched from the library earlier
+    from hl7apy.consts import DEFAULT_ENCODING_CHARS
+    a = parse_segment('PID|||1||A^B&C~D', version='2.5', encoding_chars=DEFAULT_ENCODING_CHARS, validation_level=TOL)
+    b = parse_segment('PID|||1||A^B&C~D', version='2.5', encoding_chars=_FETCHED_DEFAULTS, validation_level=TOL)
+    return (a.to_er7(DEFAULT_ENCODING_CHARS), len(a.pid_5), b.to_er7(_FETCHED_DEFAULTS), len(b.pid_5), b.pid_5[0].xpn_2.to_er7(_FETCHED_DEFAULTS))
+
+
 def c_message_build_27():
     m = Message('ADT_A01', version='2.7', validation_level=TOL, encoding_chars=dict(STD))
     m.msh.msh_7 = '20200101'
@@ -224,6 +235,6 @@ def c_field_retype():
 
 CALLS = [c_zfield_datatypes, c_component_retype, c_component_cx10, c_field_retype, c_parse25_tol, c_parse25_strict_nogroups, c_parse27_strict, c_parse23_tol, c_parse24_bad_tol, c_parse24_bad_strict,
          c_segment_ec, c_segment_longbad_tol, c_segment_bad_strict, c_field, c_component, c_subcomponent, c_message_build,
-         c_message_build_27, c_group_text, c_segment_build, c_component_cm, c_component_st25, c_subcomponent_value, c_factory_dt,
+         c_message_build_27, c_group_text, c_segment_library_constant, c_segment_build, c_component_cm, c_component_st25, c_subcomponent_value, c_factory_dt,
          c_factory_fallback, c_factory_strict_bad, c_textual_27, c_is_base, c_parse_lists]
 NCALLS = len(CALLS)
